@@ -22,6 +22,7 @@ class Spec:
     deps: Tuple[str, ...] = ()          # static redo-ifchange list; '%' stands for $2
     sel: Optional[Tuple[str, Tuple[Tuple[str, Tuple[str, ...]], ...]]] = None  # (selector source, ((value,(deps..)),..))
     ifcreate: Tuple[str, ...] = ()      # watched paths: ifchange when present, ifcreate when absent
+    ifcreate_raw: Tuple[str, ...] = ()  # unconditional redo-ifcreate (an error when the path exists)
     fail: Optional[str] = None          # flag source: script exits 7 when it contains "1"
     out: str = "stdout"                 # stdout | file ($3)
     proj: bool = False                  # map 1->0 in consumed content
@@ -34,6 +35,7 @@ class Spec:
         if self.sel:
             sel = (f(self.sel[0]), tuple((v, tuple(f(d) for d in ds)) for v, ds in self.sel[1]))
         return Spec(self.kind, tuple(f(d) for d in self.deps), sel, tuple(f(d) for d in self.ifcreate),
+                    tuple(f(d) for d in self.ifcreate_raw),
                     f(self.fail) if self.fail else None, self.out, self.proj, self.split, self.tag)
 
 
@@ -98,6 +100,10 @@ def script_text(spec: Spec, variant: int, dofile: str) -> str:
         w = w.replace("%", "$2")
         L.append(f'if [ -e "{w}" ]; then {ifchange([w])}; c="$c$(cat "{w}")"; '
                  f'else redo-ifcreate "{w}" || exit 9; c="$c~"; fi')
+    for w in spec.ifcreate_raw:
+        w = w.replace("%", "$2")
+        L.append(f'redo-ifcreate "{w}" || {{ rc=$?; echo "R $1 $rc" >> "$RV_TRACE"; exit $rc; }}')
+        L.append('c="$c~"')
     if spec.fail:
         fl = spec.fail.replace("%", "$2")
         L.append(ifchange([fl]))
@@ -123,7 +129,7 @@ def script_text(spec: Spec, variant: int, dofile: str) -> str:
 # curated worlds, one mechanism each
 
 def S(**kw):
-    for k in ("deps", "ifcreate"):
+    for k in ("deps", "ifcreate", "ifcreate_raw"):
         if k in kw:
             kw[k] = tuple(kw[k])
     if "sel" in kw and kw["sel"]:
@@ -176,6 +182,16 @@ def curated() -> Dict[str, World]:
         "ifcreate", {"f": ["0", "1"], "u": ["0", "1"]},
         {"t.do": [S(ifcreate=["f"], deps=["u2"])], "u2.do": [S(deps=["u"])]},
         ["t", "u2"], ["t"], absent=["f"])
+    W["ifcreate-raw"] = World(
+        "ifcreate-raw", {"f": ["0", "1"], "u": ["0", "1"]},
+        {"t.do": [S(ifcreate_raw=["f"], deps=["u"])], "top.do": [S(deps=["t"], out="file")]},
+        ["top", "t"], ["top", "t"], absent=["f"])
+    W["always3"] = World(
+        "always3", {"s": ["0", "1"]},
+        {"top.do": [S(deps=["d1", "d2", "d3"])], "d1.do": [S(deps=["a"])], "d2.do": [S(deps=["a"], out="file")],
+         "d3.do": [S(kind="always", deps=["a"])], "a.do": [S(kind="always", deps=["s"], out="file")],
+         "other.do": [S(deps=["s"])]},
+        ["top", "d1", "d2", "d3", "a", "other"], ["top", "d1", "other"])
     W["dynamic"] = World(
         "dynamic", {"sel": ["A", "B"], "sa": ["0", "1"], "sb": ["0", "1"]},
         {"top.do": [S(sel=("sel", (("A", ("a",)), ("B", ("b",)))))],
